@@ -73,7 +73,11 @@ Step ==
                      \* a fill is reported to its parties only after the holdings of the WHOLE round have been updated
                      F(F(F(@, e.kind = "exe" /\ (o[2] # <<>> \/ ~o[3]), "C11:before-holdings-of-the-whole-round"),
                          i = 0 /\ other # 0, IF e.kind = "exe" THEN "C11:wrong-party-or-record" ELSE "C11:wrong-party"),
-                         i = 0 /\ other = 0, "C11:extra-" \o e.kind)], e.hold, o[3])
+                         i = 0 /\ other = 0, "C11:extra-" \o e.kind),
+                                    \* "the fills reported so far": a fill an agent is told about is in the holdings by then
+                                    !.C05 = F(@, e.kind = "exe" /\ o[3] /\ \E j \in 1..Len(o[2]) :
+                                                   o[2][j][1] = e.b /\ o[2][j][2] = e.s /\ o[2][j][8] = e.m /\ o[2][j][4] = e.v,
+                                              "C05:reported-fill-not-yet-in-holdings")], e.hold, o[3])
             /\ UNCHANGED led0
        [] e.k = "stepE" ->
             LET o == Observe(e.hold) IN
